@@ -38,6 +38,7 @@ type c14Conn struct {
 	Shells []int // shell requests per channel
 	Cmd    bool  // a command was sent (session will end by itself)
 	Flood  bool  // 20 further channel-open requests were sent without waiting for the answers
+	Other  bool  // a channel of another type than "session" (direct-tcpip, as ssh -L / -W asks for) was requested
 }
 
 type c14Model struct {
@@ -80,7 +81,7 @@ func (m c14Model) pending() int {
 func (m c14Model) key() string {
 	var parts []string
 	for _, c := range m.Conns {
-		parts = append(parts, fmt.Sprintf("%s/%v/%v/%v/%v", c.Phase, c.Health, c.Shells, c.Cmd, c.Flood))
+		parts = append(parts, fmt.Sprintf("%s/%v/%v/%v/%v/%v", c.Phase, c.Health, c.Shells, c.Cmd, c.Flood, c.Other))
 	}
 	sort.Strings(parts)
 	return strings.Join(parts, ";")
@@ -120,6 +121,9 @@ func (m c14Model) events() (out []c14Event) {
 			}
 			if len(c.Shells) <= 1 {
 				out = append(out, c14Event{Kind: "flood", C: i})
+			}
+			if !c.Other && len(c.Shells) <= 1 {
+				out = append(out, c14Event{Kind: "other-channel", C: i})
 			}
 			if len(c.Shells) < 2 {
 				out = append(out, c14Event{Kind: "session", C: i})
@@ -294,6 +298,41 @@ func (r *c14Run) apply(e c14Event) string {
 		}
 		time.Sleep(500 * time.Millisecond)
 		mc.Flood = true
+	case "other-channel":
+		// a channel type dtail does not offer: whatever the answer, the connection stays open and counted
+		oc := make(chan error, 1)
+		go func(cl *ssh.Client) {
+			ch, reqs, err := cl.OpenChannel("direct-tcpip", ssh.Marshal(struct {
+				Host  string
+				Port  uint32
+				OHost string
+				OPort uint32
+			}{"127.0.0.1", 80, "127.0.0.1", 12345}))
+			if err == nil {
+				go ssh.DiscardRequests(reqs)
+				go io.Copy(io.Discard, ch)
+			}
+			oc <- err
+		}(rc.client)
+		select {
+		case <-oc:
+		case <-time.After(30 * time.Second):
+			return "stuck: a channel-open request of another type was not answered within 30 s"
+		}
+		mc.Other = true
+		// the connection must still be served: a global request is answered
+		kerr := make(chan error, 1)
+		go func(cl *ssh.Client) { _, _, err := cl.SendRequest("keepalive@verif", true, nil); kerr <- err }(rc.client)
+		select {
+		case err := <-kerr:
+			if err != nil {
+				// the server chose to end the connection after the request: then it must not count it any more either
+				mc.Phase = "closed"
+				rc.client.Close()
+			}
+		case <-time.After(30 * time.Second):
+			return "stuck: a global request after a refused channel was not answered within 30 s"
+		}
 	case "session":
 		type opened struct {
 			ch   ssh.Channel
@@ -554,6 +593,8 @@ func c14ModelStep(m c14Model, e c14Event) (c14Model, bool) {
 		c.Shells = append(c.Shells, 0)
 	case "flood":
 		c.Flood = true
+	case "other-channel":
+		c.Other = true
 	case "shell":
 		c.Shells[e.Ch]++
 	case "cmd":
@@ -567,7 +608,7 @@ func init() {
 		ID:    "C14",
 		Level: "model_checking",
 		Rule: "explicit-state breadth-first search over connection histories against a REAL in-process dtail server (real x/crypto/ssh server and client over loopback, MaxConnections 2, three connections): events tcp-connect, hand-shake with a listed key / an unlisted key / the health password / the login of a scheduled job / " +
-			"a wrong password, open a session channel (<=2), shell request (<=2 per channel), send a command, abrupt TCP close, wait for the normal end; the model state (per-connection phase, channels, shells; connections sorted) de-duplicates histories; EVERY transition is executed by replaying " +
+			"a wrong password, open a session channel (<=2), request a channel of another type (direct-tcpip), shell request (<=2 per channel), send a command, abrupt TCP close, wait for the normal end; the model state (per-connection phase, channels, shells; connections sorted) de-duplicates histories; EVERY transition is executed by replaying " +
 			"its history on a fresh server, synchronised by positive protocol events (banner, hand-shake result, global-request reply, channel confirmation, request reply) and by polling the reported counter up to 10 s; oracle = a counter: reported open connections == authenticated, " +
 			"not yet closed connections (+ sockets still hand-shaking, if the server counts them), never above MaxConnections served at once, connect refused when full and accepted when slots are free; states = model states, transitions = replayed histories",
 		Assumptions: []string{
